@@ -150,6 +150,8 @@ func genC09(out, tier string, rng *rand.Rand) {
 		[]Req{upn("reports/q2", "x"), upn("reports/2023/q1", "y"), {Kind: "get_meta", B: "bkt", N: "reports"}, rdn("reports"), {Kind: "patch", B: "bkt", N: "reports", Patch: &Patch{HasMeta: true, Meta: [][2]string{{"k", "v"}}}, CP: noConds},
 			{Kind: "delete", B: "bkt", N: "reports", CP: noConds}, {Kind: "delete", B: "bkt", N: "reports/2023", CP: noConds}, rdn("reports/q2"), rdn("reports/2023/q1"), {Kind: "list", B: "bkt"},
 			{Kind: "copy", B: "bkt", N: "reports", B2: "bkt", N2: "copy-of-dir"}, {Kind: "compose", B: "bkt", N: "composed", Srcs: []Src{{Name: "reports", Cond: Raw("")}}, Up: &UpMeta{CType: "x/y"}, CP: noConds}, {Kind: "list", B: "bkt"}})
+	// names that differ from a written name by .tmp, ~, .bak ... are objects of their own
+	progs = append(progs, siblingPrograms()...)
 	n = len(progs)
 	results := make([]res, 2*n)
 	parallel(2*n, func(k int) {
